@@ -72,7 +72,7 @@ def gas_part(ctx, quick):
     trace = ctx.path("gas.ndjson")
     p = vlib.run_driver(ctx, drv, ["-out", trace, "-gas", cfile], timeout=3000)
     if p.returncode != 0:
-        raise vlib.CheckError("driver failed on the gas-boundary scenarios:\n" + (p.stdout or "")[-2000:])
+        vlib.driver_failure(ctx, p.stdout, "driver failed on the gas-boundary scenarios")
     rows = vlib.read_ndjson(trace)
 
     def describe_gas(clause, row, rows_, line):
@@ -113,7 +113,7 @@ def main(ctx):
     r, sched, samples = export_schedules(ctx, 8 if quick else 64)
     trace, stats, out = chainlib.run_histories(ctx, quick, extra_args=["-big", "-double-delegate"], sched=sched)
     if stats is None:
-        raise vlib.CheckError("driver failed:\n" + out[-3000:])
+        vlib.driver_failure(ctx, out)
     ok, info = chainlib.validate(ctx, trace, "Trace_Replicas.tla", "Trace_Replicas.cfg", MINE, "C02", describe)
     rows = vlib.read_ndjson(trace)
     blocks = [x for x in rows if x.get("ev") == "Block"]
